@@ -56,7 +56,7 @@ class X:
         k = s.kind
         if k == 'T': return s.data.upper()
         if k == 'S': return 's'
-        if k == 'K': return '(%s)%d' % (T, s.data)
+        if k == 'K': return '(%s)%s' % (T, repr(s.data))
         a = [x.cpp(T) for x in s.args]
         if k == 'un':
             return {'neg': '(-%s)', 'abs': 'abs(%s)', 'sqrt': 'sqrt(%s)'}[s.op] % a[0]
@@ -145,9 +145,14 @@ def arith_trees(depth, flt, leaves=('a', 'b'), neg=True, symmul=True):
                     new.append(bn('mul', x, y)); new.append(bn('div', x, y))
         for x in top:
             for sc in scal:
-                new += [bn('add', x, sc), bn('add', sc, x), bn('sub', x, sc), bn('sub', sc, x)]
                 if flt:
-                    new += [bn('mul', x, sc), bn('mul', sc, x), bn('div', x, sc), bn('div', sc, x)]
+                    # UF: a *symbolic* value shared by all lanes as a direct operand of a commutative operation makes the
+                    # Ackermann instance intractable beyond 3-4 lanes (measured); there the scalar is a literal, the
+                    # symbolic scalar sits in the non-commutative positions (and in the family sym-scalar on short tensors)
+                    new += [bn('add', x, K_(2.5)), bn('add', K_(-0.75), x), bn('sub', x, sc), bn('sub', sc, x)]
+                    new += [bn('mul', x, K_(3.0)), bn('mul', K_(-1.5), x), bn('div', x, sc), bn('div', sc, x)]
+                else:
+                    new += [bn('add', x, sc), bn('add', sc, x), bn('sub', x, sc), bn('sub', sc, x)]
         level[d] = new
     out = []
     seen = set()
@@ -252,13 +257,13 @@ def slug(ex):
     s = re.sub(r'[^A-Za-z0-9]+', '', s)
     return s[:40]
 
-def scalar_rhs_case(ty, form, n, cfg, mode, const=None):
+def scalar_rhs_case(ty, form, n, cfg, mode, const=None, fam='scalar-rhs'):
     """R op= scalar (tensor-scalar in-place operators; /= by a float scalar is the documented reciprocal-multiply)."""
     T = ty.cpp
     r = Buf('r', ty, n, 'inout')
     sc = Scalar('s', ty)
     sv = E.arg(sc) if const is None else E.const(const, ty)
-    body = '    Tensor<%s,%d> R(r); R %s %s;\n    %s' % (T, n, ASSIGN[form], 's' if const is None else '(%s)%d' % (T, const), copy_out('R', 'r', n))
+    body = '    Tensor<%s,%d> R(r); R %s %s;\n    %s' % (T, n, ASSIGN[form], 's' if const is None else '(%s)%r' % (T, const), copy_out('R', 'r', n))
     ens = []
     for p in range(n):
         old = E.inp(r, p)
@@ -267,7 +272,7 @@ def scalar_rhs_case(ty, form, n, cfg, mode, const=None):
             ens.append(('bool', 'r[%d] == old/s or old*(1/s)' % p, c))
         else:
             ens.append((r, p, {'add': old + sv, 'sub': old - sv, 'mul': old * sv, 'div': old / sv}[form]))
-    cid = 'C02/scalar-rhs/%s/%s/%s/n%d/%s' % (ty.name, form, 's' if const is None else 'k%d' % const, n, cfg.tag())
+    cid = 'C02/%s/%s/%s/%s/n%d/%s' % (fam, ty.name, form, 's' if const is None else 'k' + slug(repr(const).replace('.', 'o')), n, cfg.tag())
     return Case(cid, 'C02', body, [r], ens, mode, cfg, scalars=[sc] if const is None else [])
 
 def atoms_mul_case(ty, form, n, cfg, scalar=False, kind='own'):
@@ -343,19 +348,34 @@ def cases(tier, seed):
                     n = bs[i % len(bs)]
                     out.append(expr_case('bool', ty, t, 'set', n, cfg, mode, rng.choice(['own', 'ctor', 'map'])))
                 # ---- tensor op= scalar
+                native_mul = (ty is INT and isa not in ('sse2', 'scalar')) or isa == 'avx512'    # native vector multiply (see int-kmul)
                 for form in ['add', 'sub', 'mul', 'div']:
-                    if not flt and form == 'div': continue
-                    for n in sample(rng, sizes, 3 if thorough else 1) + [2 * V + 1]:
-                        if not flt and form == 'mul':
-                            if (ty is INT and isa not in ('sse2', 'scalar')) or isa == 'avx512':    # native vector multiply only (see int-kmul)
-                                out.append(scalar_rhs_case(ty, form, n, cfg, mode, const=rng.choice([3, 5, 2])))
-                        else:
-                            out.append(scalar_rhs_case(ty, form, n, cfg, mode))
+                    ns = sample(rng, sizes, 3 if thorough else 1) + [2 * V + 1]
+                    if flt:
+                        if form in ('add', 'mul'):      # commutative: literal scalar on all sizes, symbolic scalar on short tensors
+                            for n in ns: out.append(scalar_rhs_case(ty, form, n, cfg, mode, const=rng.choice([2.5, -0.75, 3.0])))
+                            out.append(scalar_rhs_case(ty, form, 3, cfg, mode))
+                        elif form == 'sub':
+                            for n in ns: out.append(scalar_rhs_case(ty, form, n, cfg, mode))
+                        else:                           # reciprocal-multiply by the shared value 1/s: short tensors only in UF
+                            for n in (1, 2, 3): out.append(scalar_rhs_case(ty, form, n, cfg, mode))
+                    elif form != 'div':
+                        for n in ns:
+                            if form == 'mul':
+                                if native_mul: out.append(scalar_rhs_case(ty, form, n, cfg, mode, const=rng.choice([3, 5, 2])))
+                            else:
+                                out.append(scalar_rhs_case(ty, form, n, cfg, mode))
+                if flt:
+                    # ---- symbolic scalar as a direct operand of + and * : UF on short tensors
+                    ST = [bn('add', T_('a'), S_), bn('mul', S_, T_('a')), bn('add', bn('mul', T_('a'), S_), T_('b')), bn('mul', bn('sub', T_('a'), T_('b')), S_),
+                          bn('add', S_, un('abs', T_('a'))), bn('sub', bn('mul', S_, T_('a')), T_('b'))]
+                    for i, t in enumerate(sample(rng, ST, 6 if thorough else 3)):
+                        out.append(expr_case('sym-scalar', ty, t, ['set', 'add', 'mul', 'sub', 'div'][i % 5], 3 if i % 2 == 0 else 2, cfg, mode, ['own', 'ctor', 'map'][i % 3]))
                 if flt:
                     # ---- element-wise math functions (opaque per function)
                     for f in sample(rng, MATH_FNS, 6 if thorough else 2):
                         n = rng.choice([V + 1, 2 * V + 1, V - 1 if V > 1 else 1, 3])
-                        t = rng.choice([fn(f, T_('a')), bn('add', fn(f, T_('a')), T_('b')), fn(f, bn('sub', T_('a'), T_('b'))), bn('mul', S_, fn(f, T_('a')))])
+                        t = rng.choice([fn(f, T_('a')), bn('add', fn(f, T_('a')), T_('b')), fn(f, bn('sub', T_('a'), T_('b'))), bn('mul', K_(2.5), fn(f, T_('a')))])
                         if (t.nfloatops() + 1) * n > 140: n = 3
                         out.append(expr_case('math', ty, t, rng.choice(['set', 'add', 'mul']), n, cfg, mode, 'own'))
                 else:
